@@ -9,8 +9,11 @@ import sys
 import time
 
 VERIF = os.path.dirname(os.path.dirname(os.path.abspath(__file__)))
-EVIDENCE_DIR = os.path.join(VERIF, "evidence")
-REPLAY_DIR = os.path.join(VERIF, "replay")
+# VERIF_OUT redirects evidence and replay files (used when a check is pointed at a scratch
+# tree with VERIF_REPO, so that /verif/evidence only ever describes /repo)
+_OUT = os.environ.get("VERIF_OUT") or VERIF
+EVIDENCE_DIR = os.path.join(_OUT, "evidence")
+REPLAY_DIR = os.path.join(_OUT, "replay")
 KNOWN_FILE = os.path.join(VERIF, "known_findings.json")
 
 
